@@ -1,0 +1,21 @@
+//go:build verif
+// +build verif
+
+package destination
+
+// VerifSettings returns the effective (partly unexported) tuning values of a destination, in the
+// units the documentation uses (ms, micros, counts, bytes), for the verification harness.
+func (dest *Destination) VerifSettings() map[string]int64 {
+	return map[string]int64{
+		"flush":                dest.periodFlush.Milliseconds(),
+		"reconn":               dest.periodReConn.Milliseconds(),
+		"connbuf":              int64(dest.connBufSize),
+		"iobuf":                int64(dest.ioBufSize),
+		"spoolbuf":             int64(dest.SpoolBufSize),
+		"spoolmaxbytesperfile": dest.SpoolMaxBytesPerFile,
+		"spoolsyncevery":       dest.SpoolSyncEvery,
+		"spoolsyncperiod":      dest.SpoolSyncPeriod.Milliseconds(),
+		"spoolsleep":           dest.SpoolSleep.Microseconds(),
+		"unspoolsleep":         dest.UnspoolSleep.Microseconds(),
+	}
+}
